@@ -103,6 +103,10 @@ type Scanner struct {
 	// read but not the second one.
 	unfinishedAnnotationStart bool
 
+	// unfinishedComment a sign that a multi-line user comment (`###`) has been
+	// started but not closed.
+	unfinishedComment bool
+
 	// lengthComputing used when a file contains data after the schema (for example,
 	// in jApi).
 	lengthComputing bool
@@ -268,8 +272,9 @@ func (s *Scanner) Next() (lexeme.LexEvent, bool) {
 		panic(err)
 	}
 
-	if s.unfinishedAnnotationStart {
-		// Nothing is open, but the text ends after the first byte of `//` or `/*`.
+	if s.unfinishedAnnotationStart || s.unfinishedComment {
+		// Nothing is open, but the text ends after the first byte of `//` or `/*`,
+		// or inside a `###` comment.
 		err := errors.NewDocumentError(s.file, errors.ErrUnexpectedEOF)
 		err.SetIndex(s.dataSize - 1)
 		panic(err)
@@ -1283,6 +1288,7 @@ func stateAnyCommentStart(s *Scanner, c byte) state {
 	} else if s.index < s.dataSize && s.data[s.index] == '#' { // third #
 		s.annotation = annotationNone
 		s.step = stateMultiLineComment
+		s.unfinishedComment = true
 		return scanContinue
 	}
 
@@ -1304,6 +1310,7 @@ func stateMultiLineComment(s *Scanner, c byte) state {
 			s.index++ // skip second #
 			s.index++ // skip third #
 			s.step = s.returnToStep.Pop()
+			s.unfinishedComment = false
 		}
 	}
 	return scanContinue
